@@ -8,6 +8,7 @@ package verifdemo
 import (
 	"context"
 	"errors"
+	"strings"
 	"testing"
 
 	"github.com/truora/minidyn/types"
@@ -15,8 +16,8 @@ import (
 	"github.com/aws/aws-sdk-go-v2/aws"
 	"github.com/aws/aws-sdk-go-v2/service/dynamodb"
 	v2types "github.com/aws/aws-sdk-go-v2/service/dynamodb/types"
-	v2 "github.com/truora/minidyn/aws-v2/client"
 	"github.com/aws/smithy-go"
+	v2 "github.com/truora/minidyn/aws-v2/client"
 )
 
 // Blocked: core TestUpdate asserts that "SET id = :id" on the hash key succeeds.
@@ -34,7 +35,6 @@ func TestC13UpdateCannotChangeKey(t *testing.T) {
 		t.Fatalf("item under key 1 is now %s", render(out.Item))
 	}
 }
-
 
 // Blocked: TestUpdateItemWithConditionalExpression (both clients) supplies :ntyp for an expression that uses
 // :ntype and expects ConditionalCheckFailedException; language tests evaluate undefined :names as missing.
@@ -63,7 +63,6 @@ func TestC16Placeholders(t *testing.T) {
 		t.Errorf("compliant request rejected: %v", err)
 	}
 }
-
 
 // Blocked: language TestErrorHandling / TestUpdateEvalSyntaxError assert the error message
 // "index operator not supported for ..." for a scalar at the root of a document path.
@@ -220,5 +219,26 @@ func TestC16UnsuppliedPlaceholder(t *testing.T) {
 	if err == nil {
 		_, literal := o.Attributes["#n"]
 		t.Errorf("SET #n = :v was accepted although the request supplies no names (an attribute literally named #n was written: %v)", literal)
+	}
+}
+
+// KF-C09-empty-expression: an expression that is present but empty is not rejected.
+func TestC09EmptyExpressionString(t *testing.T) {
+	ctx := context.Background()
+	c := v2.NewClient()
+	if err := v2.AddTable(ctx, c, "tbl", "h", ""); err != nil {
+		t.Fatal(err)
+	}
+	tbl := "tbl"
+	S := func(v string) v2types.AttributeValue { return &v2types.AttributeValueMemberS{Value: v} }
+	if _, err := c.PutItem(ctx, &dynamodb.PutItemInput{TableName: &tbl, Item: map[string]v2types.AttributeValue{"h": S("a")}}); err != nil {
+		t.Fatal(err)
+	}
+	if o, err := c.Scan(ctx, &dynamodb.ScanInput{TableName: &tbl, FilterExpression: aws.String("")}); err == nil {
+		t.Errorf("a Scan with an empty FilterExpression succeeded and returned %d item(s)", len(o.Items))
+	}
+	_, err := c.PutItem(ctx, &dynamodb.PutItemInput{TableName: &tbl, Item: map[string]v2types.AttributeValue{"h": S("a")}, ConditionExpression: aws.String("")})
+	if err == nil || strings.Contains(err.Error(), "ConditionalCheckFailed") {
+		t.Errorf("a PutItem with an empty ConditionExpression: %v (want a validation error)", err)
 	}
 }
